@@ -807,13 +807,14 @@ class LLMGenerationActions:
 
                             # We pipe the content from this handler to the main one.
                             _streaming_handler.set_pipe_to(streaming_handler)
-                            await _streaming_handler.disable_buffering()
-
-                            # And wait for it to finish.
                             # We stop after the closing double quotes for the bot message.
+                            # (the stop must be in place before the buffered text is processed)
                             _streaming_handler.stop = [
                                 '"\n',
                             ]
+                            await _streaming_handler.disable_buffering()
+
+                            # And wait for it to finish.
                             text = await _streaming_handler.wait()
                             return ActionResult(
                                 events=[new_event_dict("BotMessage", text=text)]
